@@ -13,16 +13,25 @@ class PrimitiveNode(XmlNode):
         var: The xml var instance
         ns_map: The element namespace prefix-URI map
         config: The parser config instance
+        nil: The xsi:nil attribute of the element, if it is known
     """
 
-    __slots__ = "config", "meta", "ns_map", "var"
+    __slots__ = "config", "meta", "nil", "ns_map", "var"
 
-    def __init__(self, meta: XmlMeta, var: XmlVar, ns_map: dict, config: ParserConfig):
+    def __init__(
+        self,
+        meta: XmlMeta,
+        var: XmlVar,
+        ns_map: dict,
+        config: ParserConfig,
+        nil: bool | None = None,
+    ):
         """Initialize the xml node."""
         self.meta = meta
         self.var = var
         self.ns_map = ns_map
         self.config = config
+        self.nil = nil
 
     def bind(
         self,
@@ -54,7 +63,7 @@ class PrimitiveNode(XmlNode):
             ns_map=self.ns_map,
         )
 
-        if obj is None and not self.var.nillable:
+        if obj is None and not self.is_nil():
             obj = b"" if bytes in self.var.types else ""
 
         objects.append((qname, obj))
@@ -65,6 +74,21 @@ class PrimitiveNode(XmlNode):
                 objects.append((None, tail))
 
         return True
+
+    def is_nil(self) -> bool:
+        """Return whether the empty element stands for None.
+
+        The empty element of a nillable str field that does not say
+        xsi:nil="true" is the empty string: that is how the serializer
+        writes it.
+        """
+        if not self.var.nillable:
+            return False
+
+        if self.nil is None or self.nil:
+            return True
+
+        return str not in self.var.types
 
     def child(self, qname: str, attrs: dict, ns_map: dict, position: int) -> XmlNode:
         """Raise an exception if there is a child element inside this node."""
